@@ -17,7 +17,7 @@ class Prop(BaseProp):
     budget = {"quick": 2400, "thorough": 400000}
     must_see = ["empty_train", "one_spike_train_on_t_start", "one_spike_train_on_t_end", "shared_interior_spike",
                 "shared_spike_on_t_start", "shared_spike_on_t_end", "RI_true", "mrts_above_all_isis",
-                "mrts_between_isis", "nearest_is_auxiliary_spike", "evaluated_at_interior_time"]
+                "mrts_between_isis", "nearest_is_auxiliary_spike", "evaluated_at_interior_time", "history_probe", "src_W13"]
     must_contracts = ["inv:PieceWiseLinFunc"]
     arm_files = [("pyspike/cython/python_backend.py", ["spike_distance_python", "get_min_dist", "dist_at_t"])]
     assumptions = ["reference: exact rational evaluation of the statement (vp/ref.py spike_profile_ref)",
@@ -80,6 +80,24 @@ class Prop(BaseProp):
                 want = ref.spike_value_ref(s1, s2, ts, te, m or 0, RI, t)
                 ctx.count("evaluated_at_interior_time")
                 ctx.close(v, want, "spike-value-at-t", "spike_profile(t=%r)" % t)
+        if ctx.evals % 3 == 0 and len(s1) + len(s2) <= 40:
+            # state must not leak between calls (see C01.history_probes)
+            ctx.count("history_probe")
+            prof.y1[:] = -7.0
+            prof.y2 *= 3.0
+            again = ctx.call(ps.spike_profile, st1, st2, _repeat=False, **kw)
+            if common.same_axis(ctx, again.x, xr, "spike:state-leak:returned-object-shared", "spike_profile after the caller modified the previously returned profile"):
+                common.arr_close(ctx, again.y1, y1r, "spike:state-leak:returned-object-shared", "y1 after the caller modified the previously returned profile")
+                common.arr_close(ctx, again.y2, y2r, "spike:state-leak:returned-object-shared", "y2 after the caller modified the previously returned profile")
+            Tw = te - ts
+            ts2, te2 = ts - Tw / 4, te + Tw / 2
+            w1 = ps.SpikeTrain(np.array(s1, dtype=float), [ts2, te2])
+            w2 = ps.SpikeTrain(np.array(s2, dtype=float), [ts2, te2])
+            wide = ctx.call(ps.spike_profile, w1, w2, _repeat=False, **kw)
+            xw, y1w, y2w = ref.spike_profile_ref(s1, s2, ts2, te2, m or 0, RI)
+            if common.same_axis(ctx, wide.x, xw, "spike:state-leak:same-spikes-other-interval", "spike_profile of the same spike times on the wider interval"):
+                common.arr_close(ctx, wide.y1, y1w, "spike:state-leak:same-spikes-other-interval", "y1 on the wider interval")
+                common.arr_close(ctx, wide.y2, y2w, "spike:state-leak:same-spikes-other-interval", "y2 on the wider interval")
         T = xr[-1] - xr[0]
         avg = sum((a + b) / 2 * (x1 - x0) for a, b, x0, x1 in zip(y1r, y2r, xr, xr[1:])) / T
         d = ctx.call(ps.spike_distance, st1, st2, **kw)
